@@ -491,20 +491,23 @@ impl Session {
             Some(flow_next_incoming_id) => {
                 // The remote-incoming-window is computed as follows:
                 // next-incoming-id_flow + incoming-window_flow - next-outgoing-id_endpoint
-                self.remote_incoming_window = flow_next_incoming_id
-                    .saturating_add(flow.incoming_window)
-                    .saturating_sub(self.next_outgoing_id);
+                //
+                // Transfer-ids are RFC-1982 serial numbers, so the number of transfers the
+                // peer has not yet seen (next-outgoing-id_endpoint - next-incoming-id_flow)
+                // is taken modulo 2^32 and then subtracted from the advertised window.
+                self.remote_incoming_window = flow.incoming_window.saturating_sub(
+                    self.next_outgoing_id.wrapping_sub(*flow_next_incoming_id),
+                );
             }
             None => {
                 // If the next-incoming-id field of the flow frame is not set,
                 // then remote-incoming-window is computed as follows:
                 // initial-outgoing-id_endpoint + incoming-window_flow -
                 // next-outgoing-id_endpoint
-                self.remote_incoming_window = self
-                    .initial_outgoing_id
-                    .value()
-                    .saturating_add(flow.incoming_window)
-                    .saturating_sub(self.next_outgoing_id);
+                self.remote_incoming_window = flow.incoming_window.saturating_sub(
+                    self.next_outgoing_id
+                        .wrapping_sub(*self.initial_outgoing_id.value()),
+                );
             }
         }
 
